@@ -480,12 +480,111 @@ def explore_real_imports(ctx):
     shutil.rmtree(base, ignore_errors=True)
 
 
+def explore_catchup_scan(ctx):
+    """the catch-up scan queued when a node's watcher starts (the other event-triggered import work: requeue=True, no request) through the
+    real Worker.run with an OperationalError at its k-th statement, for every k: the worker exits, the scan is queued again, and once the
+    database is healthy every file that was already on the node is registered --- the watcher is running, so nothing else would ever queue it"""
+    import shutil
+
+    from alpenhorn.daemon import auto_import as AI
+    from alpenhorn.daemon import update as U
+    from alpenhorn.io.default import DefaultNodeIO
+    from alpenhorn.scheduler import pool
+    from vf.harness import world as w
+
+    class StandInObserver:
+        def __init__(self, timeout=None):
+            self.watches = []
+
+        def start(self):
+            pass
+
+        def schedule(self, handler, path, recursive=True):
+            self.watches.append((handler, path))
+            return self.watches[-1]
+
+        def unschedule(self, wt):
+            self.watches.remove(wt)
+
+        def stop(self):
+            pass
+
+        def join(self, *a):
+            pass
+
+    base = ctx.tmp() / "catchup"
+    saved = DefaultNodeIO.observer
+    DefaultNodeIO.observer = StandInObserver
+    try:
+        k, nstmt = 0, None
+        while nstmt is None or k <= nstmt:
+            shutil.rmtree(base, ignore_errors=True)
+            AI._observers.clear()
+            AI._watchers.clear()
+            sdb = w.fresh_db(shared=True)
+            g = w.mkgroup("g")
+            node = w.mknode(base, "n", g, stype="F", auto_import=True)
+            (pathlib.Path(node.root) / "acq1" / "sub").mkdir(parents=True)
+            for rel in ("acq1/f1", "acq1/sub/f2"):
+                (pathlib.Path(node.root) / rel).write_bytes(rel.encode())
+            queue = w.StepQueue.make()
+            un = U.UpdateableNode(queue, w.StorageNode.get(id=node.id))
+            AI.update_observer(un, queue)
+            queued_at_start = queue.qsize
+            pool.global_abort.clear()
+            wk = pool.Worker(queue, 0)
+            got = {"n": 0}
+
+            class QP:
+                @staticmethod
+                def get(timeout=None, _got=got, _wk=wk):
+                    if _got["n"] >= 1:
+                        _wk._worker_stop.set()
+                        return None
+                    _got["n"] += 1
+                    return queue.get(timeout=0.001)
+
+                task_done = staticmethod(queue.task_done)
+
+            wk._queue = QP
+            with w.SqlFault(sdb, fail_at=(k or None)) as sf:
+                r = wk.run()
+            if nstmt is None:
+                nstmt = sf.n
+            aborted = pool.global_abort.is_set()
+            pool.global_abort.clear()
+            # the next main-loop iteration: the watcher exists already, so update_observer queues nothing
+            AI.update_observer(un, queue)
+            exits, aborted2 = w.drain_with_workers(queue)
+            names = sorted(f"{c.file.acq.name}/{c.file.name}" for c in w.ArchiveFileCopy.select() if c.has_file == "Y")
+            ctx.count("catchup-scan-fault")
+            ctx.distinct_add(("catchup", k))
+            rp = {"family": "catchup-scan", "fault_at_statement": k, "statements": nstmt, "queued_when_the_watcher_started": queued_at_start, "imported": names}
+            if queued_at_start != 1:
+                ctx.broke("harness", "catch-up scan", f"starting the watcher queued {queued_at_start} tasks")
+                break
+            if aborted or aborted2:
+                ctx.fail("C10:abort-real", f"catch-up scan with OperationalError at statement {k}: global_abort set", rp)
+            if k and k <= nstmt and r != 1:
+                ctx.fail("C10:worker-not-replaced", f"catch-up scan: OperationalError at statement {k} of {nstmt}, but the worker did not exit (Worker.run returned {r})", rp)
+            if names != ["acq1/f1", "acq1/sub/f2"] or queue.inprogress_size or queue.qsize:
+                ctx.fail("C10:import-lost", f"catch-up scan with OperationalError at statement {k} of {nstmt}: after recovery the files imported are {names} (two were on the node when its watcher started); "
+                         f"queued={queue.qsize} in progress={queue.inprogress_size}", rp)
+            k += 1
+    finally:
+        DefaultNodeIO.observer = saved
+        AI._observers.clear()
+        AI._watchers.clear()
+    shutil.rmtree(base, ignore_errors=True)
+
+
 def explore(ctx):
     explore_scripts(ctx, 400 if ctx.quick() else 8000)
     explore_retry(ctx)
     explore_pool(ctx)
     explore_real_pulls(ctx)
     explore_real_imports(ctx)
+    explore_catchup_scan(ctx)
 
 
 def search(ctx):
